@@ -110,6 +110,9 @@ def opsSolver (op : String) (ins outs : List String) : Option String :=
     if zs.any (fun p => zs.any fun q => Verdict.refutedTwo eqs e vars p q) then
       pure "FAIL two-known-zeros-in-one-existence-box" else
     let square := vars.length == e.length
+    match Verdict.findCert eqs e u vars 5 with
+    | some k => pure s!"ok solution {if square then "square" else "under-constrained"} exactly-one-zero-certified shrink={k}"
+    | none =>
     let uniq := Box.subset e u && Newton.uniqueCertVars eqs u vars
     let exKnown := zs.any fun p => Verdict.ratZero eqs p && Verdict.ratIn p e
     let tagU := if uniq then "uniqueness-certified" else "uniqueness-uncertified"
